@@ -294,6 +294,45 @@ def publication_rule(ctx, rid, title="atomic publication with a private same-dir
     return r1, writers, wf
 
 
+ACTORS_ALL = ["xyzpy.gen.cropping.grow", "xyzpy.gen.cropping.Crop.grow", "xyzpy.gen.cropping.Crop.grow_missing",
+              "xyzpy.gen.cropping.Crop.calc_progress", "xyzpy.gen.cropping.Crop.is_ready_to_reap",
+              "xyzpy.gen.cropping.Crop.missing_results", "xyzpy.gen.cropping.Reaper.__init__",
+              "xyzpy.gen.cropping.Reaper.__call__", "xyzpy.gen.cropping.write_to_disk", "xyzpy.gen.cropping.read_from_disk"]
+ACTORS_LOAD = ["xyzpy.gen.cropping.Reaper.__init__", "xyzpy.gen.cropping.Reaper.__call__", "xyzpy.gen.cropping.read_from_disk",
+               "xyzpy.gen.cropping.Crop.calc_progress", "xyzpy.gen.cropping.Crop.is_ready_to_reap", "xyzpy.gen.cropping.Crop.missing_results"]
+
+
+def no_removal_rule(ctx, rid, writers=None, wf=None, actors=None, title=None, floor=5):
+    """Nothing a grower, a progress query or the Reaper's load path runs
+    removes files (C11.R4; C12.R5 restricted to the load path: a failing or
+    partial reap must not destroy grown results)."""
+    prog = ctx.prog
+    m = prog.modules["xyzpy.gen.cropping"]
+    if writers is None:
+        writers = find_writers(ctx, crop_slice(ctx))
+        wf = {w[0].qualname for w in writers}
+    r4 = ctx.rule(rid, title or "no file removal reachable from a grower, a progress query or the Reaper's load path", floor=floor)
+    actors = actors or ACTORS_ALL
+    asl = ctx.res.slice([prog.need_func(q) for q in actors], stop={"xyzpy.gen.combo_runner.combo_runner_core"})
+    asl = [f for f in asl if f.module is m]
+    REMOVERS = {"os.remove", "os.unlink", "shutil.rmtree", "os.rmdir", "os.removedirs", "?.unlink", "?.rmdir", "shutil.move", "os.truncate", "?.truncate"}
+    for fi in asl:
+        ctx.touch(fi)
+        bad = [(n, c, nm) for n, c, nm in all_calls(ctx, fi) if nm in REMOVERS]
+        if fi.qualname in wf:
+            # a writer may clean up its *own* temporary (never a parameter,
+            # i.e. never a final name)
+            own_tmp = {norm(arg(oc, 0, "file")) for (wfi, _, _, oc) in writers if wfi is fi and isinstance(arg(oc, 0, "file"), ast.Name)
+                       and arg(oc, 0, "file").id not in fi.params}
+            bad = [(n, c, nm) for n, c, nm in bad if not (c.args and norm(c.args[0]) in own_tmp and nm in ("os.remove", "os.unlink"))]
+        for n, c, nm in bad:
+            r4.bad(ctx.finding(r4.rule, fi, c, "%s removes a file while growers / a waiting reaper may be using the crop, or while results are being loaded: a published result can disappear between the reaper's existence poll and its load, and a reap that fails destroys grown results (a batch grown twice must only ever *replace* its result)" % norm(c)[:80]),
+                   "%s: %s" % (fi.qualname, norm(c)[:60]))
+        if not bad:
+            r4.ok("%s removes nothing" % fi.qualname)
+    return r4
+
+
 def run(ctx):
     prog = ctx.prog
     m = prog.modules["xyzpy.gen.cropping"]
@@ -400,28 +439,6 @@ def run(ctx):
     else:
         raise AnalysisError("idiom changed: Reaper file list %s" % txt)
 
-    # ---- R4 nothing a grower, poller or the reaper's load path runs removes files
-    r4 = ctx.rule("C11.R4", "no file removal reachable from a grower, a progress query or the Reaper's load path", floor=5)
-    actors = ["xyzpy.gen.cropping.grow", "xyzpy.gen.cropping.Crop.grow", "xyzpy.gen.cropping.Crop.grow_missing",
-              "xyzpy.gen.cropping.Crop.calc_progress", "xyzpy.gen.cropping.Crop.is_ready_to_reap",
-              "xyzpy.gen.cropping.Crop.missing_results", "xyzpy.gen.cropping.Reaper.__init__",
-              "xyzpy.gen.cropping.Reaper.__call__", "xyzpy.gen.cropping.write_to_disk", "xyzpy.gen.cropping.read_from_disk"]
-    asl = ctx.res.slice([prog.need_func(q) for q in actors], stop={"xyzpy.gen.combo_runner.combo_runner_core"})
-    asl = [f for f in asl if f.module is m]
-    REMOVERS = {"os.remove", "os.unlink", "shutil.rmtree", "os.rmdir", "os.removedirs", "?.unlink", "?.rmdir", "shutil.move", "os.truncate", "?.truncate"}
-    for fi in asl:
-        ctx.touch(fi)
-        bad = [(n, c, nm) for n, c, nm in all_calls(ctx, fi) if nm in REMOVERS]
-        if fi.qualname in wf:
-            # a writer may clean up its *own* temporary (never a parameter,
-            # i.e. never a final name)
-            own_tmp = {norm(arg(oc, 0, "file")) for (wfi, _, _, oc) in writers if wfi is fi and isinstance(arg(oc, 0, "file"), ast.Name)
-                       and arg(oc, 0, "file").id not in fi.params}
-            bad = [(n, c, nm) for n, c, nm in bad if not (c.args and norm(c.args[0]) in own_tmp and nm in ("os.remove", "os.unlink"))]
-        for n, c, nm in bad:
-            r4.bad(ctx.finding(r4.rule, fi, c, "%s removes a file while growers / a waiting reaper may be using the crop: a published result can disappear between the reaper's existence poll and its load (a batch grown twice must only ever *replace* its result)" % norm(c)[:80]),
-                   "%s: %s" % (fi.qualname, norm(c)[:60]))
-        if not bad:
-            r4.ok("%s removes nothing" % fi.qualname)
+    no_removal_rule(ctx, "C11.R4", writers, wf)
 
     base_rules.run_link_rules(ctx, "C11", [f for f in crop_funcs if f.qualname in wf or f.name in ("grow",)] + [wl, ld, init], externals=True)
